@@ -47,6 +47,36 @@ Proof.
   rewrite PositiveMap.gempty. reflexivity.
 Qed.
 
+(** Grow: the old bytes, zeros behind (and nothing of what the sparse map may
+    hold outside the old storage) *)
+Lemma unkey_key : forall o, unkey (key o) = o.
+Proof. intros [|p|p]; reflexivity. Qed.
+
+Lemma bsize_grow : forall b n, bsize (grow_buf b n) = n.
+Proof. reflexivity. Qed.
+
+Lemma bget_grow : forall b n o,
+  bget (grow_buf b n) o = if (0 <=? o) && (o <? bsize b) then bget b o else 0%N.
+Proof.
+  intros b n o. unfold bget, grow_buf. cbn [cells].
+  rewrite PositiveMap.gmapi, unkey_key.
+  destruct (PositiveMap.find (key o) (cells b)) as [v|]; cbn [option_map].
+  - destruct ((0 <=? o) && (o <? bsize b)); reflexivity.
+  - destruct ((0 <=? o) && (o <? bsize b)); reflexivity.
+Qed.
+
+Lemma bget_grow_inside : forall b n o, 0 <= o < bsize b -> bget (grow_buf b n) o = bget b o.
+Proof.
+  intros b n o H. rewrite bget_grow.
+  destruct (Z.leb_spec 0 o); [|lia]. destruct (Z.ltb_spec o (bsize b)); [|lia]. reflexivity.
+Qed.
+
+Lemma bget_grow_outside : forall b n o, bsize b <= o -> bget (grow_buf b n) o = 0%N.
+Proof.
+  intros b n o H. rewrite bget_grow.
+  destruct (Z.ltb_spec o (bsize b)); [lia|]. rewrite andb_false_r. reflexivity.
+Qed.
+
 Lemma bsize_fill : forall n b off v, bsize (fill n b off v) = bsize b.
 Proof.
   induction n as [|n IH]; intros b off v; cbn [fill].
